@@ -455,6 +455,15 @@ func c05Progress(p *Prog, r *Report, rr *reqRoles) {
 				st.aux["pendingHost"] = "1"
 			case callIsMethod(call, "proxycore", "Session", "Send"), callee != nil && rs.reply[callee]:
 				delete(st.aux, "pendingHost")
+				// next=false is the policy's "retry on the same host" (and the re-execution after a
+				// re-prepare): whatever bookkeeping the request carries, the first thing that
+				// happens is a send to the current host, not a step along the plan
+				if !next && st.aux["sent"] == "" {
+					if st.eff["next"] > 0 {
+						bad = append(bad, p.Pos(call.Pos())+": with next=false the walk consults the plan before its first send: a retry the policy directs at the same host goes to another host (and uses up the single retry the policy grants)")
+					}
+					st.aux["sent"] = "1"
+				}
 			}
 			return base(sm, st, call, callee)
 		}
